@@ -188,6 +188,9 @@ func (c *connection) send(conn net.Conn, connDone chan bool) {
 					vhook.At("client.send.tick", conn)
 				}
 				if c.isClosed {
+					if vhook.Enabled {
+						vhook.At("client.send.tickExit", conn)
+					}
 					return
 				}
 				// TODO: check one-way invoke for idle detect
